@@ -7,6 +7,25 @@ import ast
 from ..model import FuncInfo, norm
 
 
+def conjuncts(test: ast.expr, positive: bool = True) -> list[str]:
+    """The atomic conditions known when `test` is true (positive) / false (not positive)."""
+    if isinstance(test, ast.UnaryOp) and isinstance(test.op, ast.Not):
+        return conjuncts(test.operand, not positive)
+    if isinstance(test, ast.BoolOp):
+        if isinstance(test.op, ast.And) and positive or isinstance(test.op, ast.Or) and not positive:
+            out = []
+            for v in test.values:
+                out += conjuncts(v, positive)
+            return out
+        return [norm(test) if positive else f"not ({norm(test)})"]
+    if isinstance(test, ast.Compare) and len(test.ops) == 1 and not positive:
+        flip = {ast.In: ast.NotIn, ast.NotIn: ast.In, ast.Is: ast.IsNot, ast.IsNot: ast.Is, ast.Eq: ast.NotEq, ast.NotEq: ast.Eq}
+        for a, b in flip.items():
+            if isinstance(test.ops[0], a):
+                return [norm(ast.Compare(test.left, [b()], test.comparators))]
+    return [norm(test) if positive else f"not ({norm(test)})"]
+
+
 def guards_of(f: FuncInfo, stmt: ast.stmt) -> list[str]:
     """Conditions known true at stmt: enclosing if-tests and preceding `if c: continue` in the same loop body."""
     out = []
@@ -18,12 +37,12 @@ def guards_of(f: FuncInfo, stmt: ast.stmt) -> list[str]:
                 out.extend(local)
                 return True
             if isinstance(s, ast.If):
-                if rec(s.body, local + [norm(s.test)]):
+                if rec(s.body, local + conjuncts(s.test, True)):
                     return True
-                if rec(s.orelse, local + [f"not ({norm(s.test)})"]):
+                if rec(s.orelse, local + conjuncts(s.test, False)):
                     return True
-                if len(s.body) == 1 and isinstance(s.body[0], (ast.Continue, ast.Break, ast.Return)) and not s.orelse:
-                    local.append(f"not ({norm(s.test)})")
+                if len(s.body) == 1 and isinstance(s.body[0], (ast.Continue, ast.Break, ast.Return, ast.Raise)) and not s.orelse:
+                    local += conjuncts(s.test, False)
             elif isinstance(s, (ast.For, ast.While)):
                 if rec(s.body, local) or rec(s.orelse, local):
                     return True
